@@ -140,6 +140,63 @@ CHECKS: dict[str, tuple[str, str, str, str, str]] = {
         "(exhaustive=false when hit). Local-search operators are not driven (they need an executor).",
         "5/C15",
     ),
+    "C27": (
+        "exploration",
+        "bounded-exhaustive generated modules x configurations against an AST-derived oracle",
+        "Every subset (quick: size <= 4 plus the full set; thorough: all 2^13) of a 13-feature module menu "
+        "(public/protected/private/name-mangled functions, imported function, re-exported class, class with "
+        "public/protected/private/dunder/static/class methods, nested class, lambdas, Enum, subclass of an imported "
+        "base, property, module-level constant) written as real packages is analysed by the real "
+        "generate_test_cluster under PUBLIC/PROTECTED/ALL and ignore_methods / ignore_modules lists over every "
+        "present name; accessible_objects_under_test is compared as a set of (kind, qualified name, defining "
+        "module) with a required/optional/forbidden classification computed from the source text alone.",
+        "Oracle trusts ast and the configuration docstrings. Lenient (either answer accepted): constructors of "
+        "classes without __init__, the Enum accessible, lambdas under eligible names, property getters, dunder "
+        "methods, members of non-public classes. Not covered: coroutines, abstract classes, C extensions.",
+        "5/C27",
+    ),
+    "C30": (
+        "model_checking",
+        "explicit-state sequences through one real executor + schedule exploration of abandoned threads",
+        "Leg 1: every sequence of <= 2 (quick) / <= 3 (thorough) test cases from a 15-call alphabet (print, raise, "
+        "SystemExit, close/replace stdout, os.close(1), disable logging / remove handlers, reseed / draw / create "
+        "random generators, mutate module or class state, pure calls) runs through one real TestCaseExecutor; after "
+        "every execution the process snapshot (streams, fds 0-2, logging level and root handlers, pynguin's RNG "
+        "state) must equal the snapshot before it and hidden-state-free calls must give their first-position result "
+        "after every prefix. Leg 2: the C32 cooperative-scheduler exploration judged for later results that are "
+        "lost/truncated and for streams left redirected by an abandoned thread.",
+        "Hidden-state-free reference = the call's result as first test of an executor. Leg 2 shares C32's "
+        "assumptions (threads switch only at the wrapped scheduling points).",
+        "5/C30",
+    ),
+    "C32": (
+        "model_checking",
+        "stateless schedule exploration (bounded deviations) of the real executor under a cooperative scheduler",
+        "The real TestCaseExecutor runs 7 sequences [looping test, terminating test(s)] with real threads under a "
+        "one-baton scheduler: scheduling points at every tracer callback, after check(), at stop(), statement "
+        "boundaries and the isolation context managers; Thread.join(timeout) is an environment choice. All "
+        "schedules with <= 2 (quick) / 3 (thorough) deviations (preemptions, early timeouts) for two horizons are "
+        "enumerated; per schedule: no hang, the looping test reports timeout, and no later result contains a line, "
+        "branch, code object or exception its solo run lacks. Violating schedules are replayed and must reproduce. "
+        "A free-running leg with real 0.25 s timeouts cross-checks the same oracle plus the wall-clock bound.",
+        "Threads switch only at the wrapped points; finer-grained races are left to the free-running leg. Looping "
+        "tests loop on a predicate (BRANCH instrumentation gives a callback per iteration) or a cooperative sleep.",
+        "5/C32",
+    ),
+    "C33": (
+        "model_checking",
+        "TLC on a TLA+ model of the restart protocol + replay of every model behaviour on the real client",
+        "models/Restart.tla (search time, restart count, subprocess flag, crash kinds x elapsed classes, "
+        "deliveries) is checked by TLC for all initial search times -1..Tmax (4 quick / 6 thorough): restarts only "
+        "while search time remains and strictly decreasing, bounded restarts, success only if delivered. The model "
+        "has a history variable; EVERY terminal state (1480 behaviours quick) is replayed against the real "
+        "PynguinClient/MasterProcess/RunningTask with a fake process, pipe and clock and must give the same "
+        "spawn-by-spawn search times, subprocess flags and final ReturnCode. Plus real CLI runs with the real "
+        "worker killed (guarded crash_point hook) at pipeline phases, 1x/2x, under time and iteration budgets.",
+        "Assumes a crashed worker consumes > 0 s (elapsed == 0.0 exactly would not decrease int(T - 0.0)); a worker "
+        "that hangs without dying is outside the model. Trusted: TLC, the dump parser, the fakes.",
+        "5/C33",
+    ),
     "C29": (
         "model_checking",
         "explicit-state BFS over the real FilesystemIsolation on a fresh sandbox tree per history",
